@@ -351,7 +351,7 @@ def discharge(prog, body, kind, bi, t, bounds):
         r = strip(body.op_term(t['args'][1], (bi, None)))
         if isinstance(r, tuple) and r[0] == 'agg' and str(r[1]).split('::')[-1] in ('Range', 'RangeTo', 'RangeFrom', 'RangeToInclusive'):
             knd = str(r[1]).split('::')[-1]
-            vals = [bounds.rng(x) for x in r[2:]]
+            vals = [bounds.rng(x) or _len_by_tests(body, x, bi) for x in r[2:]]
             base = strip(body.op_term(t['args'][0], (bi, None)))
             ln = bounds.len_of(base)
             if ln is None:
@@ -365,6 +365,31 @@ def discharge(prog, body, kind, bi, t, bounds):
                 hi = (vals[-1][1] + (1 if knd == 'RangeToInclusive' else 0)) if knd != 'RangeFrom' else ln[0]
                 if 0 <= lo <= hi <= ln[0]:
                     return 'range %d..%d within length %d' % (lo, hi, ln[0])
+    if kind == 'call:slice::copy_from_slice' and len(t['args']) == 2:
+        # `dst[..src.len()].copy_from_slice(&src)`: the destination is cut to the length of the source
+        dst = strip(body.op_term(t['args'][0], (bi, None)))
+        src = strip(body.op_term(t['args'][1], (bi, None)))
+        while isinstance(dst, tuple) and dst[0] in ('ref', 'deref', 'mutb') and isinstance(dst[1], tuple):
+            dst = strip(dst[1])
+        if isinstance(dst, tuple) and dst[0] == 'call' and cname(dst[1]) == 'IndexMut::index_mut' and len(dst) == 4:
+            r = strip(dst[3])
+            if isinstance(r, tuple) and r[0] == 'agg' and str(r[1]).split('::')[-1] == 'RangeTo' and len(r) == 3:
+                lc = _len_call_of(body, r[2])
+                sv = util._ref_root(body, t['args'][1])
+                if lc is not None and sv != lc[1]:
+                    # the source reaches the call through deref / as_slice of the vector
+                    x = body.op_term(t['args'][1], (bi, None))
+                    while isinstance(x, tuple) and ((x[0] == 'call' and cname(x[1]) in ('Deref::deref', 'Vec::as_slice', 'AsRef::as_ref')) or x[0] in ('ref', 'deref')):
+                        x = x[2] if x[0] == 'call' else x[1]
+                    if isinstance(x, tuple) and x[0] == 'mutb':
+                        sv = x[1]
+                    else:
+                        sv = x[2] if isinstance(x, tuple) and x[0] == 'var' and x[1] == body.path else None
+                if lc is not None and sv == lc[1] and not any(
+                        cname(callee_name(gt)) not in util._LEN_CALLS + ('Deref::deref', 'Vec::as_slice', 'Vec::iter', 'slice::iter', 'Vec::is_empty') and gt['args'] and
+                        util._ref_root(body, gt['args'][0]) == lc[1] and body.reaches(lc[0], gb) and body.reaches(gb, bi) for gb, gt in body.calls()):
+                    return 'the destination is cut to the measured length of the source'
+        return None
     if kind.startswith('assert:BoundsCheck'):
         c = strip(body.op_term(t['cond'], (bi, None)))
         if isinstance(c, tuple) and c[0] == 'bin' and c[1] == 'Lt':
@@ -489,6 +514,35 @@ def discharge(prog, body, kind, bi, t, bounds):
                         if not _shrinks(body, recv):
                             return 'index is the loop variable of 0..v.len() over the same, non-shrinking vector'
         return None
+    return None
+
+
+def _len_call_of(body, x):
+    """(block, vec local) of the `v.len()` call that term x denotes"""
+    x = strip(x)
+    if not (isinstance(x, tuple) and x[0] == 'call' and cname(x[1]) in util._LEN_CALLS):
+        return None
+    for lb, lt in body.calls():
+        if cname(callee_name(lt)) in util._LEN_CALLS and strip(body.call_term(lt, (lb, None))) == x:
+            vec = util._ref_root(body, lt['args'][0])
+            if vec is not None:
+                return lb, vec
+    return None
+
+
+def _len_by_tests(body, x, site):
+    """range of `v.len()` at the site when every path to it passed tests of that length which name it (`len != 5 && len != 6`
+    left behind on the error edge) and nothing but counted pushes touched the vector since"""
+    lc = _len_call_of(body, x)
+    if lc is None:
+        return None
+    ls = util.lengths_reaching(body, lc[1], site)
+    if ls and all(isinstance(v, int) for v in ls):
+        # the value used is the one measured by the call: no push may lie between the call and the site
+        for gb, gt in body.calls():
+            if cname(callee_name(gt)) in util._GROW_BY_ONE and util._ref_root(body, gt['args'][0]) == lc[1] and body.reaches(lc[0], gb) and body.reaches(gb, site):
+                return None
+        return (min(ls), max(ls))
     return None
 
 
